@@ -220,6 +220,10 @@ func (vc *FnVC) callContract(in *ssa.Call, callee *ssa.Function, fc *FuncContrac
 			vc.applyModItem(m, in.Pos())
 		}
 	}
+	if fc.Mutates {
+		vc.noteMutation(cname)
+		vc.bumpAllVersions()
+	}
 	// results
 	results := vc.freshResults(in, "r$"+mangle(callee.Name()))
 	vc.setCallResult(in, results)
@@ -570,6 +574,10 @@ func (vc *FnVC) havocCall(in *ssa.Call, name string) {
 		vc.havocked[name+" [no heap effect assumed]"] = true
 		return
 	}
+	if sc := c.StaticCallee(); sc != nil && sc.Blocks != nil && vc.prog != nil && vc.prog.effectFree(sc, 0) {
+		vc.havocked[name+" [body checked syntactically to write no memory; result arbitrary]"] = true
+		return
+	}
 	// pure observers
 	if vc.prog != nil && vc.prog.isPureObserver(name) {
 		vc.pureObserver(in, name, results)
@@ -587,16 +595,31 @@ func (vc *FnVC) havocCall(in *ssa.Call, name string) {
 	for _, a := range args {
 		vc.havocArg(a, in.Pos(), name)
 	}
+	vc.noteMutation(name)
 	if c.IsInvoke() {
 		vc.bumpVersion(c.Value)
 		vc.assume("calls through interface values modify only memory reachable from their explicit pointer/slice arguments (no ownership model)")
 	} else if c.StaticCallee() == nil {
+		vc.bumpAllVersions()
 		vc.assume("calls through function values modify only memory reachable from their explicit pointer/slice arguments and captured variables")
 	} else {
 		vc.assume("uncontracted static callees modify only memory reachable (by type) from their pointer/slice arguments; package-level state is not modelled")
 		// a mutating method on an interface-holding struct bumps observer versions reachable from it: handled via bumpAll
 		vc.bumpAllVersions()
 	}
+}
+
+// noteMutation: the function under verification calls something that may change the
+// unmodelled world state (observer results). Unless it is declared `mutates`, that is a
+// contract error: callers rely on observers being stable across non-mutating callees.
+func (vc *FnVC) noteMutation(callee string) {
+	if vc.fc == nil || vc.fc.Mutates || vc.mutNoted {
+		return
+	}
+	vc.mutNoted = true
+	o := vc.ob("frame", "mutates-declared", "function calls possibly state-mutating "+callee+" and must be declared 'mutates'", "false", vc.fn.Pos())
+	o.NFacts = 0
+	o.noReplay = true
 }
 
 func lastSeg(n string) string {
